@@ -15,7 +15,8 @@
 //       -> `ret=<b> st=<x,…> ns=<sampler calls> na=<isValid calls> calls=<U|N|G…> log=<x,…:v;…>`   (lock-step)
 //   vreal <name> <s|n> <iters> <attempts> <permille valid> <clearance> <dist> <space> <centre>
 //       valid-state sampler over the real default sampler and a pseudo-random validity predicate of the state
-//       bits, recorded; -> `iters=<n> succ=<k> badBounds=<k> badLast=<k> badPred=<k> badClr=<k> first=<state|->`
+//       bits, recorded; -> `iters=<n> succ=<k> badBounds=<k> badLast=<k> nearLast=<k> badPred=<k> badClr=<k> first=<state|->`
+//       (nearLast: the returned state itself was never checked but is equalStates() to one answered `true`)
 #include "common/spaces.h"
 #include <ompl/base/SpaceInformation.h>
 #include <ompl/base/StateSampler.h>
@@ -29,6 +30,7 @@
 #include <ompl/base/samplers/MinimumClearanceValidStateSampler.h>
 #include <ompl/util/RandomNumbers.h>
 #include <ompl/util/Console.h>
+#include <ompl/util/Exception.h>
 #include <map>
 #include <memory>
 
@@ -222,8 +224,34 @@ public:
     {
         bool v = pred(st);
         last[vp::showState(sp_, st)] = v;
+        if (v)
+        {
+            ob::State *c = sp_->allocState();
+            sp_->copyState(c, st);
+            validOnes.push_back(c);
+        }
         return v;
     }
+    void clearRecord() const
+    {
+        last.clear();
+        for (auto *c : validOnes)
+            sp_->freeState(c);
+        validOnes.clear();
+    }
+    // some state answered `true` during this call is equalStates() to st (but not bit-identical)
+    bool nearValidated(const ob::State *st) const
+    {
+        for (auto *c : validOnes)
+            if (sp_->equalStates(c, st))
+                return true;
+        return false;
+    }
+    ~HashChecker() override
+    {
+        clearRecord();
+    }
+    mutable std::vector<ob::State *> validOnes;
     bool isValid(const ob::State *st, double &dist) const override
     {
         dist = clr(st);
@@ -451,14 +479,14 @@ int main()
                     si->freeState(centre);
                     throw vp::ParseError("trailing");
                 }
-                unsigned long succ = 0, badBounds = 0, badLast = 0, badPred = 0, badClr = 0;
+                unsigned long succ = 0, badBounds = 0, badLast = 0, badPred = 0, badClr = 0, nearLast = 0;
                 std::string first = "-";
                 {
                     auto vss = makeVss(name, si.get(), attempts, 3, clr, dist);
                     for (unsigned long k = 0; k < iters; ++k)
                     {
                         si->copyState(st, centre);
-                        chk->last.clear();
+                        chk->clearRecord();
                         bool ret = mode == "s" ? vss->sample(st) : vss->sampleNear(st, centre, dist);
                         if (!ret)
                             continue;
@@ -470,15 +498,24 @@ int main()
                             bad = true;
                         }
                         auto it = chk->last.find(vp::showState(sp, st));
-                        if (it == chk->last.end() || !it->second)
+                        if (it == chk->last.end() && chk->nearValidated(st))
                         {
-                            ++badLast;
+                            // never checked itself, but equalStates() to a state that was answered `true`
+                            ++nearLast;
                             bad = true;
                         }
-                        if (!chk->pred(st))
+                        else
                         {
-                            ++badPred;
-                            bad = true;
+                            if (it == chk->last.end() || !it->second)
+                            {
+                                ++badLast;
+                                bad = true;
+                            }
+                            if (!chk->pred(st))
+                            {
+                                ++badPred;
+                                bad = true;
+                            }
                         }
                         if (name == "minclear" && chk->clr(st) < clr)
                         {
@@ -492,7 +529,7 @@ int main()
                 si->freeState(st);
                 si->freeState(centre);
                 std::cout << "iters=" << iters << " succ=" << succ << " badBounds=" << badBounds
-                          << " badLast=" << badLast << " badPred=" << badPred << " badClr=" << badClr
+                          << " badLast=" << badLast << " nearLast=" << nearLast << " badPred=" << badPred << " badClr=" << badClr
                           << " first=" << first << "\n";
             }
             else
@@ -501,6 +538,11 @@ int main()
         catch (const vp::ParseError &)
         {
             std::cout << "bad-op\n";
+        }
+        catch (const ompl::Exception &e)
+        {
+            // e.g. SpaceInformation::setup() refuses a space of zero extent ("longest valid segment must be positive")
+            std::cout << "skip ompl-exception\n";
         }
     }
     return 0;
